@@ -107,7 +107,7 @@ def run_impl(cases):
     return out
 
 
-FINDING_OF_REGION = [('namedtuple', 'namedtupleVsPlainClass'),
+FINDING_OF_REGION = [('namedtupleFieldMismatch', 'namedtupleFieldMismatch'),     # (the wider `namedtupleVsPlainClass` is repaired)
                      ('emptyFixedTuple', 'emptyFixedTuple')]
 
 
